@@ -202,6 +202,7 @@ type frame struct {
 	returns  []retInfo
 	deferred []deferInfo
 	recoverTerm string
+	inRecovery  bool
 	lastNext map[ssa.Value]string
 	safeDone map[string][]*ssa.BasicBlock
 	frameDone map[string]bool
@@ -1879,6 +1880,10 @@ func (c *Ctx) implementsTerm(x string, it *types.Interface) string {
 	var alts []string
 	for _, t := range impls {
 		alts = append(alts, fmt.Sprintf("(= (itag %s) %s)", x, c.typeTag(t)))
+		if _, isPtr := t.(*types.Pointer); !isPtr {
+			// the method set of *T contains that of T
+			alts = append(alts, fmt.Sprintf("(= (itag %s) %s)", x, c.typeTag(types.NewPointer(t))))
+		}
 	}
 	c.assumed["closed world: dynamic types implementing "+it.String()+" are those declared in the repository"] = true
 	return or(alts...)
@@ -1957,4 +1962,12 @@ func (fr *frame) execSlice(x *ssa.Slice, st *State) {
 func (fr *frame) execPanic(x *ssa.Panic, st *State) {
 	// a panic is allowed only when licensed by the contract's panics clause
 	fr.oblige("safety", "panic", nil, fr.panicOK, "explicit panic reachable: "+fr.c.prog.sourceLine(fr.c.prog.Fset.Position(x.Pos())), x.Pos())
+	if fr.c.panicsWithSet {
+		v := fr.val(x.X)
+		var alts []string
+		for _, tg := range fr.c.panicsWith {
+			alts = append(alts, fmt.Sprintf("(= (itag %s) %s)", v.T, tg))
+		}
+		fr.oblige("safety", "panicvalue", nil, or(alts...), "the value of this panic has one of the types declared by panics_with: "+fr.c.prog.sourceLine(fr.c.prog.Fset.Position(x.Pos())), x.Pos())
+	}
 }
